@@ -24,6 +24,11 @@ import Martian.Invocation
 import Proofs.Invocation
 import Martian.InvocationStr
 import Proofs.InvocationStr
+import Martian.InvocationText
+import Proofs.InvocationText
+import Martian.JsonBytes
+import Proofs.JsonBytes
+import Proofs.JsonBytesFilter
 import Gen.Facts
 
 namespace Props.C16
@@ -44,8 +49,13 @@ theorem facts_float_format : Gen.floatExpFormat = [(0x67, -1, 64), (0x67, -1, 64
 of an out-of-range float is implementation-defined, so it is never performed),
 guard `i := int64(e.Value); float64(i) == e.Value`,
 then `strconv.AppendInt(buf, i, 10)` — and both `MarshalJSON` and `EncodeJSON`
-of `FloatExp` go through it. -/
-theorem facts_float_json_shape : Gen.floatJsonShape =
+of `FloatExp` go through it.  The ORDER "range check before the conversion" is observable by no run on
+amd64 (the out-of-range conversion is implementation-defined, not wrong here), so this fact is its only
+tie: the obligation includes `_extracted = true`, i.e. a defeated extraction pattern breaks it instead of
+falling back to the committed default (audit: facts fail open).  `facts_split_key` and
+`facts_float_format` may fall back: the binding correspondence on split arguments and the float
+token-class stream detect a semantic change of either. -/
+theorem facts_float_json_shape : Gen.floatJsonShape_extracted = true ∧ Gen.floatJsonShape =
     ["range e.Value >= -9223372036854775808.0 && e.Value < 9223372036854775808.0",
      "init i := int64(e.Value)", "cond float64(i) == e.Value", "then strconv.AppendInt(buf, i, 10)",
      "caller EncodeJSON", "caller MarshalJSON"] := by decide
@@ -85,6 +95,24 @@ theorem float_value_preserved_text (l : Lit) :
     · exact Or.inl (by simp [textLit, h])
   | _ => exact Or.inl rfl
 
+/-- THE NUMERIC VALUE SURVIVES (audit C16-M1): with `Lit.val` = the exact dyadic value `n·2^e` of a
+number literal (`Flt.val`: an exact rational, zero of either sign is `(0,0)`), neither printer
+changes the value of any number – only, for integral values, its int-vs-float syntax class. -/
+theorem number_value_preserved_json (l : Lit) : (encLit l).val = l.val := val_encLit l
+
+/-- … and the same for the MRO text printer followed by the lexer -/
+theorem number_value_preserved_text (l : Lit) : (textLit l).val = l.val := val_textLit l
+
+/-- `Lit.val` really computes values: 2.5 = 5·2^-1, 1234567.0 = 1234567, -0.0 = 0, -2^63 -/
+example : Lit.val (.flt ⟨false, 5, -1⟩) = some (5, -1) ∧ Lit.val (.flt ⟨false, 1234567, 0⟩) = some (1234567, 0)
+    ∧ Lit.val (.flt ⟨true, 0, 0⟩) = some (0, 0) ∧ Lit.val (.flt ⟨true, 1, 63⟩) = some (-9223372036854775808, 0)
+    ∧ Lit.val (.int 7) = some (7, 0) ∧ Lit.val (.str []) = none := by decide
+
+/-- the ∀-statements range over every representative; the float64 decomposition is the canonical
+one (`m` odd): `4·2^-2` is a non-canonical spelling of `1.0` which `isIntegral` does not recognise -/
+example : Flt.canonical ⟨false, 4, -2⟩ = false ∧ Flt.canonical ⟨false, 5, -1⟩ = true
+    ∧ Flt.isIntegral ⟨false, 4, -2⟩ = false := by decide
+
 /-- What is really lost, 1: the float syntax of an integral value.  The MRO
 literal `1234567.0` (a `FloatExp`) is marshalled as `1234567` and read back as
 an integer; `2.5` stays a float; 2^63 (outside int64) stays a float. -/
@@ -99,9 +127,10 @@ back as the integer `0` from either printer — the sign of zero is gone. -/
 theorem negative_zero_sign_lost :
     encLit (.flt ⟨true, 0, 0⟩) = .int 0 ∧ textLit (.flt ⟨true, 0, 0⟩) = .int 0 := by decide
 
-/-- The text leg (`BuildCallSource`'s formatter, then the MRO parser) does not
-change the JSON a call marshals to — although the two printers use different
-rules for integer syntax (10^6 vs int64). -/
+/-- The tree function `reparse` (what the text leg returns: `text_leg_is_format_parse` below proves
+that it IS formatter ∘ lexer ∘ parser) does not change the JSON a call marshals to — although the
+two printers use different rules for integer syntax (10^6 vs int64).  On its own this is a
+statement about the tree function only. -/
 theorem format_parse_preserves_json (e : Exp) : encode (reparse e) = encode e :=
   encode_reparse e
 
@@ -117,17 +146,20 @@ theorem encode_convert (t : TypeId) (j : J) (e : Exp) (h : convert t j = some e)
 
 /-- … and `convertToExp` does yield an expression whenever every integer
 literal fits int64; for JSON already in normal form the round trip is the
-identity. -/
-theorem encode_convert_exact (t : TypeId) (j : J) (hi : jIntsOk j = true) :
+identity. 
+`_partial`: the hypothesis `jIntsOk` (integer-syntax numbers fit int64) restricts the domain; without it
+the statement is false: `int_2_63_not_convertible` (2^63 has no expression: `parseInt` cannot hold it). -/
+theorem encode_convert_exact_partial (t : TypeId) (j : J) (hi : jIntsOk j = true) :
     ∃ e, convert t j = some e ∧ encode e = normJ j ∧ (normJ j = j → encode e = j) := by
   obtain ⟨e0, h0⟩ := ofJ_isSome j hi
   refine ⟨fix t.base t.arrayDim t.mapDim e0, by simp [convert, h0], ?_, ?_⟩
   · rw [encode_fix, encode_ofJ j e0 h0]
   · intro hn; rw [encode_fix, encode_ofJ j e0 h0, hn]
 
-/-- The whole first direction on one argument: invocation JSON → `convertToExp`
-→ formatted MRO text → MRO parser → `MarshalJSON` gives the JSON value back
-(up to the normalisation above). -/
+/-- The first direction on one argument at TREE level: invocation JSON → `convertToExp` → the tree
+function `reparse` → `MarshalJSON` gives the JSON value back (up to the normalisation above).  The
+statement with the real text in the middle – print the call, lex, parse – is
+`source_roundtrip_text` below. -/
 theorem source_roundtrip (t : TypeId) (j : J) (e : Exp) (h : convert t j = some e) :
     encode (reparse e) = normJ j := by
   rw [encode_reparse, encode_convert t j e h]
@@ -140,12 +172,36 @@ theorem int_2_63_not_convertible (t : TypeId) :
 
 /-- Expression → JSON → expression: a literal that is well-typed at the
 parameter's type `t` (shape and struct-vs-map flags as the type dictates)
-comes back unchanged up to float normalisation. -/
-theorem convert_encode (t : TypeId) (e : Exp)
+comes back unchanged up to float normalisation. 
+`_partial`: `intsOk` (integer literals fit int64 – true of anything the MRO parser built) restricts the
+domain of "all values"; `wt` is the property's own quantifier (values of the declared type). -/
+theorem convert_encode_partial (t : TypeId) (e : Exp)
     (hw : wt t.base t.arrayDim t.mapDim e = true) (hi : intsOk e = true) :
     convert t (encode e) = some (normE e) := by
   simp only [convert, ofJ_encode e hi, Option.map_some, erase_normE, fix_normE,
     fix_erase_wt e _ _ _ hw]
+
+/-- JSON OF THE DECLARED TYPE CONVERTS TO A WELL-TYPED LITERAL (audit C16-M2): if the JSON value has
+the shape of the parameter's type (`jWt`: arrays under array dims, objects under typed maps, objects
+with declared members only under struct types, any object under the untyped `map`, scalars or `null`
+elsewhere) and its integers fit int64, then `convertToExp` yields an expression that is well-typed at
+that type – it carries exactly the struct-vs-map flags the compiler demands, so the printed call
+type-checks as far as literal shapes go – and that marshals back to the value.  (This is the direction
+in which the type-directed decision matters; `encode_convert` alone does not exercise it.) -/
+theorem convert_wt (t : TypeId) (j : J) (hi : jIntsOk j = true)
+    (hw : jWt t.base t.arrayDim t.mapDim j = true) :
+    ∃ e, convert t j = some e ∧ wt t.base t.arrayDim t.mapDim e = true ∧ encode e = normJ j := by
+  obtain ⟨e0, h0⟩ := ofJ_isSome j hi
+  refine ⟨fix t.base t.arrayDim t.mapDim e0, by simp [convert, h0], wt_fix_ofJ j e0 _ _ _ h0 hw, ?_⟩
+  rw [encode_fix, encode_ofJ j e0 h0]
+
+/-- the typing hypothesis is necessary: a struct value with an undeclared key converts to an
+expression the compiler rejects (`wt` false) -/
+theorem convert_undeclared_member_not_wt :
+    jWt (.struct (.cons [0x61] .scalar 0 0 .nil)) 0 0 (.obj (.cons [0x78] (.lit (.int 1)) .nil)) = false
+    ∧ (convert ⟨.struct (.cons [0x61] .scalar 0 0 .nil), 0, 0⟩ (.obj (.cons [0x78] (.lit (.int 1)) .nil))).map
+        (wt (.struct (.cons [0x61] .scalar 0 0 .nil)) 0 0) = some false := by
+  constructor <;> rfl
 
 /-- Without any typing hypothesis the values still survive: the result differs
 from the original at most in struct-vs-map flags (and float normalisation). -/
@@ -180,7 +236,7 @@ theorem split_status_roundtrip (s : Bool) (t : TypeId) (j : J) (a : Arg)
     | arr _ => cases h
     | obj kvs =>
       simp only at h
-      cases hf : kvs.find splitKey with
+      cases hf : kvs.findSplit with
       | none => simp [hf] at h
       | some v =>
         simp only [hf, Option.map_eq_some_iff] at h
@@ -192,8 +248,9 @@ parameter's type `t`, or a split binding whose operand is what the compiler
 accepts for a split over `t` (`splitOperandOk`: an array of `t`-values or a map
 literal of `t`-values – also when `t` is itself a typed map, the case repaired
 as finding C16-N7 – or `null`), is rebuilt with the same split status and the
-same value (up to float normalisation). -/
-theorem binding_roundtrip (t : TypeId) (a : Arg)
+same value (up to float normalisation). 
+`_partial`: as `convert_encode_partial` (`intsOk`). -/
+theorem binding_roundtrip_partial (t : TypeId) (a : Arg)
     (hw : match a with
       | .plain e => wt t.base t.arrayDim t.mapDim e = true
       | .split e => splitOperandOk t e = true)
@@ -202,14 +259,14 @@ theorem binding_roundtrip (t : TypeId) (a : Arg)
       some (match a with | .plain e => .plain (normE e) | .split e => .split (normE e)) := by
   cases a with
   | plain e =>
-    simp [dataOfBinding, Arg.isSplit, encodeArg, buildBinding, convert_encode t e hw hi]
+    simp [dataOfBinding, Arg.isSplit, encodeArg, buildBinding, convert_encode_partial t e hw hi]
   | split e =>
     simp only [Arg.value] at hi
     cases e with
     | lit l =>
       dsimp only [splitOperandOk] at hw
-      have := convert_encode t (.lit l) hw hi
-      simp only [dataOfBinding, Arg.isSplit, encodeArg, buildBinding, if_true, JKvs.find]
+      have := convert_encode_partial t (.lit l) hw hi
+      simp only [dataOfBinding, Arg.isSplit, encodeArg, buildBinding, if_true, JKvs.findSplit, isSplitKey_splitKey]
       simp only [encode] at this ⊢
       simp [convertSplit, splitSourceType, this]
     | arr xs =>
@@ -218,7 +275,7 @@ theorem binding_roundtrip (t : TypeId) (a : Arg)
       have : convert t (encode (.arr xs)) = some (normE (.arr xs)) := by
         simp only [convert, ofJ_encode _ hi, Option.map_some, erase_normE, fix_normE,
           fix_erase_wt_succ _ _ _ _ hw']
-      simp only [dataOfBinding, Arg.isSplit, encodeArg, buildBinding, if_true, JKvs.find]
+      simp only [dataOfBinding, Arg.isSplit, encodeArg, buildBinding, if_true, JKvs.findSplit, isSplitKey_splitKey]
       simp only [encode] at this ⊢
       simp [convertSplit, splitSourceType, this]
     | map k kvs =>
@@ -226,7 +283,7 @@ theorem binding_roundtrip (t : TypeId) (a : Arg)
       obtain ⟨hk, hv⟩ := hw
       subst hk
       simp only [intsOk] at hi
-      simp only [dataOfBinding, Arg.isSplit, encodeArg, buildBinding, if_true, JKvs.find, encode,
+      simp only [dataOfBinding, Arg.isSplit, encodeArg, buildBinding, if_true, JKvs.findSplit, isSplitKey_splitKey, encode,
         convertSplit_obj, ofJKvs_encodeKvs kvs hi, Option.map_some, eraseKvs_normEKvs,
         fixVals_normEKvs, fixVals_erase_wt kvs _ _ _ hv, normE]
 
@@ -269,12 +326,26 @@ whose values are converted at the parameter's type, whatever that type is. -/
 theorem split_over_map_values_at_param_type (t : TypeId) (kvs : JKvs) (a : Arg)
     (h : buildBinding true t (.obj (.cons splitKey (.obj kvs) .nil)) = some a) :
     ∃ es, ofJKvs kvs = some es ∧ a = .split (.map false (fixVals t.base t.arrayDim t.mapDim es)) := by
-  simp only [buildBinding, if_true, JKvs.find, convertSplit_obj] at h
+  simp only [buildBinding, if_true, JKvs.findSplit, isSplitKey_splitKey, convertSplit_obj] at h
   cases hk : ofJKvs kvs with
   | none => simp [hk] at h
   | some es =>
     simp only [hk, Option.map_some, Option.some.injEq] at h
     exact ⟨es, rfl, h.symm⟩
+
+/-- The split operand is found the way `json.Unmarshal` into `struct{Split … `json:"split"`}` finds
+it (audit C16-M4): keys are matched case-folded, and of several matching members the LAST wins:
+`{"split": [1], "SPLIT": [2], "x": 0}` splits over `[2]`; `{"Split": [1]}` is a split argument;
+`{"splat": [1]}` is not. -/
+theorem split_key_fold_last_wins :
+    (buildBinding true ⟨.scalar, 0, 0⟩ (.obj (.cons splitKey (.arr (.cons (.lit (.int 1)) .nil))
+      (.cons [0x53, 0x50, 0x4C, 0x49, 0x54] (.arr (.cons (.lit (.int 2)) .nil)) (.cons [0x78] (.lit (.int 0)) .nil))))).map Arg.printable
+      = some true
+    ∧ (JKvs.cons splitKey (J.arr (.cons (.lit (.int 1)) .nil))
+        (.cons [0x53, 0x50, 0x4C, 0x49, 0x54] (.lit (.int 2)) .nil)).findSplit.isSome = true
+    ∧ isSplitKey [0x53, 0x70, 0x6C, 0x69, 0x74] = true ∧ isSplitKey [0xC5, 0xBF, 0x70, 0x6C, 0x69, 0x74] = true
+    ∧ isSplitKey [0x73, 0x70, 0x6C, 0x61, 0x74] = false := by
+  refine ⟨by rfl, by rfl, by decide, by decide, by decide⟩
 
 /-- A parameter of struct type split over a map (`x = split {"k": {a: 1}}`)
 is converted at `map<STRUCT>`: the outer literal stays a map literal and every
@@ -317,7 +388,7 @@ array is always expressible as `x = split [...]`. -/
 theorem split_array_printable (t : TypeId) (v : J) (r : JList) (a : Arg)
     (h : buildBinding true t (.obj (.cons splitKey (.arr (.cons v r)) .nil)) = some a) :
     a.printable = true := by
-  simp only [buildBinding, if_true, JKvs.find, convertSplit, splitSourceType, convert, ofJ, ofJList] at h
+  simp only [buildBinding, if_true, JKvs.findSplit, isSplitKey_splitKey, convertSplit, splitSourceType, convert, ofJ, ofJList] at h
   split at h
   · simp only [Option.map_some, fix, fixList, Option.some.injEq] at h
     subst h; rfl
@@ -350,7 +421,7 @@ private def sV : Exp :=
     (.cons kGrid (.arr (.cons (.arr (.cons (.lit (.int 1)) (.cons (.lit .null) .nil)))
         (.cons (.arr .nil) .nil))) .nil))))
 
-/-- `convert_encode`'s hypotheses hold for a nested struct with a typed map of
+/-- `convert_encode_partial`'s hypotheses hold for a nested struct with a typed map of
 structs and a two-dimensional array (also inside an array of such structs). -/
 example : wt (.struct sT) 0 0 sV = true ∧ intsOk sV = true := by decide
 example : wt (.struct sT) 1 0 (.arr (.cons sV (.cons (.lit .null) .nil))) = true := by decide
@@ -375,7 +446,7 @@ example : ∃ bs, buildCall [(kX, ⟨.scalar, 0, 0⟩), (kY, ⟨.struct innerT, 
 example : buildBinding true ⟨.struct innerT, 0, 0⟩
     (.obj (.cons splitKey (.obj (.cons kK (.obj (.cons kA (.lit (.int 1)) .nil)) .nil)) .nil))
     = some (.split (.map false (.cons kK (.map true (.cons kA (.lit (.int 1)) .nil)) .nil))) := by rfl
-/-- `binding_roundtrip`'s hypothesis for a split operand: `int x` split over `[1, 2]` and over `{"k": 1}` -/
+/-- `binding_roundtrip_partial`'s hypothesis for a split operand: `int x` split over `[1, 2]` and over `{"k": 1}` -/
 example : wt (collectionType ⟨.scalar, 0, 0⟩ (.arr (.cons (.lit (.int 1)) .nil))).base
     (collectionType ⟨.scalar, 0, 0⟩ (.arr (.cons (.lit (.int 1)) .nil))).arrayDim
     (collectionType ⟨.scalar, 0, 0⟩ (.arr (.cons (.lit (.int 1)) .nil))).mapDim
@@ -444,10 +515,102 @@ type the result is the (unparseable) struct literal `{__reference__: "A.b"}` -/
 example : convert ⟨.struct innerT, 0, 0⟩ (encodeRef [0x41, 0x2E, 0x62])
     = some (.map true (.cons refKey (.lit (.str [0x41, 0x2E, 0x62])) .nil)) := by rfl
 
-/-- `binding_roundtrip` for the repaired case: `map<INNER> m = split {"k": {"a": {a: 1}}}` -/
+/-- `binding_roundtrip_partial` for the repaired case: `map<INNER> m = split {"k": {"a": {a: 1}}}` -/
 example : splitOperandOk ⟨.struct innerT, 0, 1⟩
     (.map false (.cons kK (.map false (.cons kA (.map true (.cons kA (.lit (.int 1)) .nil)) .nil)) .nil))
     = true := by decide
+
+/-! ## the text leg is the real formatter ∘ lexer ∘ parser (audit C16-H1 / H6)
+
+`Martian.FormatExp` / `Martian.FormatCall` (C09) are byte-exact models of `Exp.format` /
+`CallStm.format`, of the MRO tokenizer and of the `val_exp` / `call_stm` grammar, tied to the real
+FormatExp / ParseValExp / UncheckedParse / FormatSrcBytes on every run, with
+`parse_format_exp` / `parse_format_call` proved for them.  `InvocationText.toF` / `ofF` translate
+between the invocation expressions and C09's expression type; `textLeg g e` =
+`(parseValExp (fmt [] (toF g e))).map (ofF g)` is print → lex → parse on BYTES.  The only thing not
+computed is strconv: the 'g' text of a float enters as the oracle `g`, and `floatsOk g e` states
+per float of `e` (decidably; evaluated by the driver on the real strconv output of every case) the
+two facts used – integer-syntax text exactly when `Flt.textAsInt`, else a NUM_FLOAT token that reads
+back as the same float64.  `wfText` / `wfCallText` = C09's well-formedness of what is printed
+(strings and keys valid UTF-8, keys ascending, struct keys and binding ids identifiers, integers in
+int64, a split operand a non-empty collection): what the formatter can print and the grammar
+accept back; `-0.0` fails `floatsOk` with the real strconv (known finding C16-N5). -/
+section TextLeg
+open Martian.InvocationText
+
+/-- EXPRESSION: printing with the formatter, lexing and parsing with `ParseValExp` returns exactly
+the tree `reparse e` – for every printable expression (nested structs, typed maps, arrays, strings
+with any escapes, big integers, floats) -/
+theorem text_leg_is_format_parse (g : G) (e : Exp) (hw : wfText g e = true) (hf : floatsOk g e = true) :
+    textLeg g e = some (reparse e) :=
+  text_leg_exp g e hw hf
+
+/-- CALL: `Ast.Format()` of the call `BuildCallAst` built, lexed and parsed as a `call_stm`, gives
+the same callable and the same bindings with every value `reparse`d and every split status kept -/
+theorem text_leg_call_is_format_parse (g : G) (name : Str) (bs : List (Str × Arg))
+    (hw : wfCallText g name bs = true) (hf : floatsOkBinds g bs = true) :
+    callTextLeg g name bs = some (name, bs.map fun b => (b.1, b.2.reparse)) :=
+  text_leg_call g name bs hw hf
+
+/-- marshalling the re-read bindings gives the data of the original bindings -/
+theorem dataOf_reparse (bs : List (Str × Arg)) :
+    dataOf (bs.map fun b => (b.1, b.2.reparse)) = dataOf bs := by
+  have harg : ∀ a : Arg, encodeArg a.reparse = encodeArg a ∧ a.reparse.isSplit = a.isSplit := by
+    intro a; cases a <;> simp [Arg.reparse, encodeArg, Arg.isSplit, encode_reparse]
+  induction bs with
+  | nil => rfl
+  | cons b r ih =>
+    have hb := harg b.2
+    simp only [List.map_cons]
+    rw [dataOf_cons, dataOf_cons, ih, hb.1, hb.2]
+
+/-- SOURCE ROUND TRIP OVER THE REAL TEXT (replaces the postulated text leg): invocation data →
+`BuildCallAst` (`buildCall`) → `Ast.Format()` BYTES (`printCall`) → tokenizer → `call_stm` parser →
+`BuildDataForAst` (`dataOf`) returns the callable and the canonical form of the data – every
+declared parameter present, values preserved up to float normalisation, `splitargs` preserved –
+for every signature and all data whose call is printable (`wfCallText`, e.g. no split over an empty
+collection: findings C16-N3a/b) with strconv behaving as `floatsOkBinds` says. -/
+theorem source_roundtrip_text (g : G) (name : Str) (sig : Sig) (d : Data) (bs : List (Str × Arg))
+    (h : buildCall sig d = some bs) (hw : wfCallText g name bs = true) (hf : floatsOkBinds g bs = true) :
+    (callTextLeg g name bs).map (fun p => (p.1, dataOf p.2)) = some (name, canonData sig d) := by
+  rw [text_leg_call g name bs hw hf]
+  simp only [Option.map_some, dataOf_reparse, call_roundtrip sig d bs h]
+
+/-- second round: the regenerated text is a fixed point (printing what was read back prints the
+same bytes) -/
+theorem text_fixed_point (g : G) (name : Str) (bs : List (Str × Arg)) (hw : wfCallText g name bs = true) :
+    Martian.FormatCall.fmtCall (Martian.FormatCall.normCall (toFCall g name bs)) = printCall g name bs :=
+  Martian.FormatCall.fmtCall_norm (toFCall g name bs) hw
+
+/-! non-vacuity: a struct of a struct, a typed map of structs, a two-dimensional array, a float, a
+string needing escapes, keys in sorted order; strconv oracle for the one float: `2.5` -/
+private def gEx : G :=
+  { text := fun f => if f = ⟨false, 5, -1⟩ then [0x32, 0x2E, 0x35] else [0x30],
+    val := fun _ => ⟨false, 5, -1⟩ }
+private def tV : Exp :=
+  .map true (.cons kGrid (.arr (.cons (.arr (.cons (.lit (.int 1)) (.cons (.lit .null) .nil)))
+        (.cons (.arr .nil) .nil)))
+    (.cons kInner (.map true (.cons kA (.lit (.int 1)) .nil))
+    (.cons kM (.map false (.cons kAB
+        (.map true (.cons kA (.lit (.flt ⟨false, 5, -1⟩)) .nil)) .nil))
+    (.cons kName (.lit (.str [0x6E, 0x22, 0xC3, 0xA9])) .nil))))
+example : wfText gEx tV = true ∧ floatsOk gEx tV = true := by decide +kernel
+/-- … and on it the bytes are really printed and read back -/
+example : textLeg gEx tV = some (reparse tV) ∧ (textLeg gEx tV).isSome = true :=
+  ⟨text_leg_is_format_parse gEx tV (by decide +kernel) (by decide +kernel), by decide +kernel⟩
+/-- a split call over that value and a scalar: `map call ST(x = split [1], y = {…},)` -/
+example : wfCallText gEx [0x53, 0x54] [(kX, .split (.arr (.cons (.lit (.int 1)) .nil))), (kY, .plain tV)] = true
+    ∧ floatsOkBinds gEx [(kX, .split (.arr (.cons (.lit (.int 1)) .nil))), (kY, .plain tV)] = true := by
+  decide +kernel
+/-- the empty struct literal is where the old definition of `reparse` was wrong: `{}` reads back as a map -/
+example : textLeg gEx (.map true .nil) = some (.map false .nil) :=
+  text_leg_is_format_parse gEx (.map true .nil) (by decide +kernel) (by decide +kernel)
+/-- `-0.0`: with the real strconv text `-0` the hypothesis `floatsOk` fails (finding C16-N5) -/
+example : floatsOk { text := fun _ => [0x2D, 0x30], val := fun _ => ⟨true, 0, 0⟩ } (.lit (.flt ⟨true, 0, 0⟩)) = true
+    ∧ wfText { text := fun _ => [0x2D, 0x30], val := fun _ => ⟨true, 0, 0⟩ } (.lit (.flt ⟨true, 0, 0⟩)) = false := by
+  decide +kernel
+
+end TextLeg
 
 /-! ## the string leaf at byte level
 
@@ -466,8 +629,10 @@ open Martian.ShellQuote (validUtf8)
 `encoding/json` writes for a valid UTF-8 string – with HTML escaping
 (`json.Marshal`, also when it re-compacts a `RawMessage`) or without
 (`SetEscapeHTML(false)`) – is read back exactly by `unquoteBytes`.  For ALL
-valid UTF-8 strings. -/
-theorem string_leaf_json_to_mro (html : Bool) (s : Str) (h : validUtf8 s = true) :
+valid UTF-8 strings. 
+`_partial`: for valid UTF-8 only; for other byte strings the statement is false (`invalid_utf8_not_preserved`:
+each offending byte becomes U+FFFD). -/
+theorem string_leaf_json_to_mro_partial (html : Bool) (s : Str) (h : validUtf8 s = true) :
     unquoteBytes (jsonEncodeString html s) = some s :=
   unquote_jsonEncode html s h
 
@@ -485,14 +650,26 @@ theorem string_leaf_any_json_writer (body s : Str) (hv : validUtf8 body = true)
 `_outs`, whose string tokens reach the MRO lexer unchanged through
 `Fork.writeInvocation`): `\\uXXXX` for everything outside `' '..'~'`, a
 surrogate pair of escapes for every non-BMP rune.  For ALL valid UTF-8
-strings. -/
-theorem string_leaf_python_writer (s : Str) (h : validUtf8 s = true) :
+strings. 
+`_partial`: for valid UTF-8 only; for other byte strings the statement is false (`invalid_utf8_not_preserved`:
+each offending byte becomes U+FFFD). -/
+theorem string_leaf_python_writer_partial (s : Str) (h : validUtf8 s = true) :
     unquoteBytes (pyEncodeString s) = some s :=
   unquote_pyEncode s h
 
+/-- Python → Go: `encoding/json` reads what Python's `json.dumps` writes (a stage's
+`_outs` read by mrp) as the string, for ALL valid UTF-8 strings. 
+`_partial`: for valid UTF-8 only; for other byte strings the statement is false (`invalid_utf8_not_preserved`:
+each offending byte becomes U+FFFD). -/
+theorem string_leaf_python_to_go_partial (s : Str) (h : validUtf8 s = true) :
+    jsonDecodeString (pyEncodeString s) = some s :=
+  jsonDecode_pyEncode s h
+
 /-- MRO → JSON, (b): `MarshalJSON`/`EncodeJSON` print every string and map key
-with `quoteString`; a JSON reader decodes that text to the string. -/
-theorem string_leaf_mro_to_json (s : Str) (h : validUtf8 s = true) :
+with `quoteString`; a JSON reader decodes that text to the string. 
+`_partial`: for valid UTF-8 only; for other byte strings the statement is false (`invalid_utf8_not_preserved`:
+each offending byte becomes U+FFFD). -/
+theorem string_leaf_mro_to_json_partial (s : Str) (h : validUtf8 s = true) :
     jsonDecodeString (quoteString s) = some s :=
   jsonDecode_quoteString s h
 
@@ -501,8 +678,10 @@ byte for byte, for every byte string (invalid UTF-8 included: `\ufffd`). -/
 theorem quoteString_is_json_encoder (s : Str) : jsonEncodeString false s = quoteString s :=
   jsonEncode_false_eq s
 
-/-- `encoding/json` reads its own output back. -/
-theorem json_encode_decode (html : Bool) (s : Str) (h : validUtf8 s = true) :
+/-- `encoding/json` reads its own output back. 
+`_partial`: for valid UTF-8 only; for other byte strings the statement is false (`invalid_utf8_not_preserved`:
+each offending byte becomes U+FFFD). -/
+theorem json_encode_decode_partial (html : Bool) (s : Str) (h : validUtf8 s = true) :
     jsonDecodeString (jsonEncodeString html s) = some s :=
   jsonDecode_jsonEncode html s h
 
@@ -510,8 +689,10 @@ theorem json_encode_decode (html : Bool) (s : Str) (h : validUtf8 s = true) :
 JSON text (either Go writer) → MRO lexer → `quoteString` (the formatter's and
 `MarshalJSON`'s printer) → MRO lexer again and → JSON decoder: every leg
 returns the same string, and the text reaches a fixed point (`quoteString s`)
-after one leg. -/
-theorem string_leaf_roundtrip (html : Bool) (s : Str) (h : validUtf8 s = true) :
+after one leg. 
+`_partial`: for valid UTF-8 only; for other byte strings the statement is false (`invalid_utf8_not_preserved`:
+each offending byte becomes U+FFFD). -/
+theorem string_leaf_roundtrip_partial (html : Bool) (s : Str) (h : validUtf8 s = true) :
     ∃ s1, unquoteBytes (jsonEncodeString html s) = some s1
       ∧ unquoteBytes (quoteString s1) = some s
       ∧ jsonDecodeString (quoteString s1) = some s
@@ -554,5 +735,51 @@ example : jsonDecodeString [0x22, 0x5C, 0x78, 0x34, 0x31, 0x22] = none
     ∧ jsonDecodeString [0x22, 0x01, 0x22] = none := by decide
 
 end StringLeaf
+
+
+/-! ## invocation bytes: the raw-message writers
+
+Arguments travel between stages as `json.RawMessage` and are written into `_args`, `_outs`,
+`_invocation` data by concatenation: `LazyArgumentMap.encodeJSON` / `MarshalerMap.encodeJSON`
+(`{`, keys in `sort.Strings` order written by `json.Marshal`, `:`, the raw value, `,`, `}`),
+`marshallerArray.encodeJSON`, and `MapExp` / `ResolvedBindingMap` `encodeJSON` (keys by
+`quoteString`).  Models: `JsonBytes.encodeRawMap html`, `encodeRawArr`; `Den p j` = the bytes `p`
+are read (by the byte-level model of `encoding/json`'s value grammar, `JsonBytes.parseV`) as the
+tree `j`. -/
+section InvocationBytes
+open Martian.JsonBytes
+open Martian.ShellQuote (validUtf8)
+
+/-- a map of raw messages, each of which denotes a tree, written with sorted keys – by either key
+writer – denotes the object of those trees under the same keys in sorted order: nothing is lost
+or altered by the splicing -/
+theorem invocation_map_bytes (html : Bool) (m : List (Martian.Lexer.Bytes × Martian.Lexer.Bytes))
+    (tree : Martian.Lexer.Bytes × Martian.Lexer.Bytes → Martian.Json.J)
+    (h : ∀ kv, kv ∈ m → validUtf8 kv.1 = true ∧ Den kv.2 (tree kv)) :
+    Den (encodeRawMap html m) (.obj ((sortByKey m).map fun kv => (kv.1, tree kv))) :=
+  den_encodeRawMap html m tree h
+
+/-- … and a slice of raw messages denotes the array of their trees -/
+theorem invocation_array_bytes (xs : List Martian.Lexer.Bytes) (tree : Martian.Lexer.Bytes → Martian.Json.J)
+    (h : ∀ p, p ∈ xs → Den p (tree p)) : Den (encodeRawArr xs) (.arr (xs.map tree)) :=
+  den_encodeRawArr xs tree h
+
+/-- the written bytes are a whole JSON document for that tree (`json.Unmarshal` succeeds on them) -/
+theorem invocation_map_parses (html : Bool) (m : List (Martian.Lexer.Bytes × Martian.Lexer.Bytes))
+    (tree : Martian.Lexer.Bytes × Martian.Lexer.Bytes → Martian.Json.J)
+    (h : ∀ kv, kv ∈ m → validUtf8 kv.1 = true ∧ Den kv.2 (tree kv)) :
+    parseTop (encodeRawMap html m) = some (.obj ((sortByKey m).map fun kv => (kv.1, tree kv))) :=
+  parseTop_of_den (den_encodeRawMap html m tree h)
+
+/-- non-vacuity: `{"b":[1, 2],"a<":null}` as `LazyArgumentMap` writes it: keys sorted, `<` escaped
+by `json.Marshal`, the raw value `[1, 2]` spliced with its white space -/
+example : encodeRawMap true [([0x62], [0x5B, 0x31, 0x2C, 0x20, 0x32, 0x5D]), ([0x61, 0x3C], [0x6E, 0x75, 0x6C, 0x6C])]
+    = [0x7B, 0x22, 0x61, 0x5C, 0x75, 0x30, 0x30, 0x33, 0x63, 0x22, 0x3A, 0x6E, 0x75, 0x6C, 0x6C, 0x2C,
+       0x22, 0x62, 0x22, 0x3A, 0x5B, 0x31, 0x2C, 0x20, 0x32, 0x5D, 0x7D] := by decide +kernel
+example : (parseTop (encodeRawMap true [([0x62], [0x5B, 0x31, 0x2C, 0x20, 0x32, 0x5D]), ([0x61, 0x3C], [0x6E, 0x75, 0x6C, 0x6C])])).map printJ
+    = some (printJ (.obj [([0x61, 0x3C], .null), ([0x62], .arr [.num (.int 1), .num (.int 2)])])) := by
+  decide +kernel
+
+end InvocationBytes
 
 end Props.C16
